@@ -171,3 +171,19 @@ P['C08'] = dict(
           dict(name='pid_histories', tu=_pid, entry='h_pid_seq', engine='B', defs_quick={'VK_IVALS': 3, 'VK_OPS': 6}, defs_thorough={'VK_IVALS': 5, 'VK_OPS': 9}, reach=['freed'], samples=8),
           dict(name='release_discipline', tu='harness/w_cancel.cpp', entry='h_cancel', engine='B', clock=True, defs={'VK_OPS': 3}, defs_quick={'VK_STEPS': 4}, defs_thorough={'VK_STEPS': 6}, reach=['answered', 'cancel', 'drained'], samples=6),
           dict(name='pid_step_A', tu=_pid, entry='h_pid_step', engine='A', twin='pid_step', defs={'VK_IVALS': 2}, unwind=6, timeout=900, tiers=['thorough'])])
+
+_cod = 'harness/e_codec.cpp'
+def _cod_job(entry, reach):
+    return dict(name=entry[2:], tu=_cod, entry=entry, engine='B', defs_quick={'VK_NPROPS': 2}, defs_thorough={'VK_NPROPS': 3}, reach=reach, samples=8)
+P['C17'] = dict(
+    level_text='Every encoder the client uses (CONNECT with Will, PUBLISH, PUBACK, PUBREC, PUBREL, PUBCOMP, SUBSCRIBE, UNSUBSCRIBE, PINGREQ, DISCONNECT, AUTH) is executed with symbolic scalar fields, symbolic string bytes and every combination of up to 2 (quick) / 3 (thorough) properties of its property set carrying symbolic values; PUBLISH additionally at Remaining Length 127/128 and 16383/16384. The strict reference decoder must accept the bytes as exactly one packet (fixed-header flags, Remaining Length equal to the size, only allowed properties, each at most once) and return exactly the supplied values.',
+    level_note='Bounds: strings of 1-2 bytes (payload up to 16 KB with concrete filler), <= 2 / 3 properties at once, 1-2 topics. The 2097151/2097152 length boundary is not covered. Values the request validators refuse (strings > 65535, negative varint) are not encoded.',
+    assumptions=['reference decoder harness/ref_mqtt.hpp written by hand from MQTT 5.0 sections 2.1-2.2, 3.1-3.15'],
+    jobs=[_cod_job('h_enc_publish', ['ok', 'two-byte-length', 'three-byte-length']), _cod_job('h_enc_puback', ['ok']), _cod_job('h_enc_pubrec', ['ok']), _cod_job('h_enc_pubrel', ['ok']), _cod_job('h_enc_pubcomp', ['ok']),
+          _cod_job('h_enc_subscribe', ['ok']), _cod_job('h_enc_unsubscribe', ['ok']), _cod_job('h_enc_disconnect_auth_ping', ['disconnect', 'auth', 'pingreq']), _cod_job('h_enc_connect', ['ok', 'with-will'])])
+P['C18'] = dict(
+    level_text='For every packet type a broker sends (CONNACK, PUBLISH, PUBACK, PUBREC, PUBREL, PUBCOMP, SUBACK, UNSUBACK, DISCONNECT, AUTH) the independent reference encoder produces a well-formed packet from symbolic fields and a forked shape (which of the allowed properties - up to 2 / 3 at once, with symbolic values -, which short form: no reason code, reason code only, with properties; 1-3 reason codes; payload 0-2 bytes); the real decoder runs on an exact-size buffer and must succeed and return exactly the encoded fields; the decoded values are then re-encoded with the real encoder and the strict reference decoder must find the same contents.',
+    level_note='Bounds: strings of 1-2 bytes, <= 2 / 3 properties at once. Longer strings and more than one User Property / Subscription Identifier only through C19 and the whole-client harnesses.',
+    assumptions=['reference codec harness/ref_mqtt.hpp written by hand from MQTT 5.0 sections 2.1-2.2, 3.1-3.15'],
+    jobs=[_cod_job('h_dec_puback', ['short-form', 'rc-only', 'full']), _cod_job('h_dec_pubrec', ['full']), _cod_job('h_dec_pubrel', ['full']), _cod_job('h_dec_pubcomp', ['full']), _cod_job('h_dec_connack', ['ok']),
+          _cod_job('h_dec_publish', ['ok']), _cod_job('h_dec_suback', ['ok']), _cod_job('h_dec_unsuback', ['ok']), _cod_job('h_dec_disconnect', ['short-form', 'rc-only', 'full']), _cod_job('h_dec_auth', ['full'])])
